@@ -171,4 +171,12 @@ type K8s struct {
 	MC map[string]corev1.Spec
 }
 
+// Stamped has a field of a foreign struct type WITHOUT exported fields (time.Time): such a value cannot be spelled as
+// a literal and is left out by the dumper - what it must not leave behind is an import nobody uses.
+type Stamped struct {
+	Name string
+	At   time.Time
+	N    int
+}
+
 func (d *Deep) Hidden() int { return d.hidden }
